@@ -272,6 +272,12 @@ func (nfc *NfcSession) SelectAid(aid []byte) (selected bool, err error) {
 func (nfc *NfcSession) ReadBinaryFromOffset(offset, length int) ([]byte, error) {
 	slog.Debug("ReadBinaryFromOffset", "offset", offset, "length", length)
 
+	// NB bit 8 of P1 selects short-EF-identifier addressing, so READ BINARY with an even INS
+	//    can only address offsets up to 32767 (larger offsets would read another file, or wrap)
+	if offset < 0 || offset > 0x7FFF {
+		return nil, fmt.Errorf("[ReadBinaryFromOffset] offset (%d) cannot be encoded in P1-P2 (max 32767 for READ BINARY with even INS)", offset)
+	}
+
 	var capdu *CApdu = NewCApdu(0x00, INS_READ_BINARY, byte(offset/256), byte(offset%256), nil, length)
 
 	rapdu, err := nfc.DoAPDU(capdu, fmt.Sprintf("Read Binary (offset:%d, length:%d)", offset, length))
